@@ -16,7 +16,8 @@
                     stripped, and contains no header separator (nor ':' in an untyped column). *)
 From Coq Require Import List NArith ZArith Bool.
 From RPFT Require Import Base.Sexp Base.PyStr Base.Result Gen.Tables Row.InferTy Row.Infer
-  Row.InferFacts Row.InferMainFacts Row.InferOrderFacts Row.InferCorollaries.
+  Row.InferFacts Row.InferMainFacts Row.InferOrderFacts Row.InferCorollaries
+  Base.ODict Row.InferCip Row.InferCipFacts.
 Import ListNotations.
 
 (* the regenerated separators and type-name tables satisfy what the proofs need *)
@@ -183,3 +184,76 @@ Example C18_dot_default_witness_whole_header :
                     VRec [([120; 58; 102; 108; 111; 97; 116; 61; 49]%N, d)]).     (* a field "x:float=1" *)
 Proof. exact ex_dot_whole_header. Qed.
 Print Assumptions C18_dot_default_witness_whole_header.
+
+(* 7. HISTORIES.  model_inference.py is pure, but the object that calls it lives for a whole run
+      and legitimately keeps state: the registry self.data_sheets (a registered name wins over the
+      sheet of that name; an operation registers its result under new_name).  Row/InferCip.v mirrors
+      that state machine of ONE long-lived ContentIndexParser ([step] = _process_data_sheet,
+      [scan_all] = the object driven row by row, a failed row leaving it as it was; [run] = the
+      constructor) together with the row model of every registered sheet: the user's class, or a
+      class inferred from the header row of the sheet named as its source, with the identity
+      (stamp) of the class object.  It is tied to the code by running the SAME index rows through the
+      extracted [scan_all]/[run] and through one implementation object, comparing the registry
+      after every row (harness/c18_hist.py).  "The headers alone determine the row structure" for a
+      parser with a past: *)
+
+(* a load of a sheet that is not registered gives the same sheet (model structure, provenance,
+   sources; or the same error) in ANY two states, i.e. after any two histories *)
+Theorem C18_fresh_load_history_independent : forall ev st1 st2 n1 n2 name dm,
+  oget str_eqb (reg st1) name = None -> oget str_eqb (reg st2) name = None ->
+  obs_load (get_sheet ev st1 n1 name dm) = obs_load (get_sheet ev st2 n2 name dm).
+Proof. exact get_sheet_history_independent. Qed.
+Print Assumptions C18_fresh_load_history_independent.
+
+(* and when its header row renders a schema of the family: the denoted model, whatever the state *)
+Theorem C18_fresh_load_denotes : forall ev st name sc rows,
+  wf_schema sc = true ->
+  oget str_eqb (reg st) name = None ->
+  wb_get ev name = Some (mk_wsheet (mk_table (headers_of sc) rows) true) ->
+  exists st', step ev st (load_row name) = Ok st'
+    /\ oget str_eqb (reg st') name = Some (mk_dsheet (RInferred (next_stamp st) name (fst (denote sc))) [name]).
+Proof. exact step_load_denotes. Qed.
+Print Assumptions C18_fresh_load_denotes.
+
+(* invariant of every state the long-lived object reaches, whatever the rows were (loads, user models,
+   concat / filter / sort, re-registrations, failed rows): every registered inferred model is
+   [sheet_model] of the header row of the sheet named as its source and has a stamp below the
+   counter, every registered user model is defined in the module, and one class object (stamp)
+   never stands for two sources or two structures *)
+Theorem C18_registry_sound : forall ev rows, Forall (outcome_sound ev) (scan_all ev rows init_state).
+Proof. exact scan_all_sound. Qed.
+Print Assumptions C18_registry_sound.
+
+Theorem C18_registry_sound_constructor : forall ev rows st, run ev rows init_state = Ok st -> reg_sound ev st.
+Proof. exact run_sound. Qed.
+Print Assumptions C18_registry_sound_constructor.
+
+Theorem C18_registered_inferred_model : forall ev st name d k src t,
+  reg_sound ev st -> oget str_eqb (reg st) name = Some d -> ds_model d = RInferred k src t ->
+  exists ws, wb_get ev src = Some ws /\ sheet_model (ws_table ws) = Ok t.
+Proof. exact sound_registered_inferred. Qed.
+Print Assumptions C18_registered_inferred_model.
+
+(* plain loads of pairwise distinct sheets through one object: the sequence of results is the map
+   of the load done by a parser without a past ("run ops = map f ops") *)
+Theorem C18_loads_are_pure : forall ev names,
+  NoDup names ->
+  outcomes (map load_row names) (scan_all ev (map load_row names) init_state) = map (pure_load ev) names.
+Proof. exact scan_loads_pure. Qed.
+Print Assumptions C18_loads_are_pure.
+
+(* the cell contents are not consulted along a history either: two workbooks with the same header
+   rows (and the same readability inputs) give the same outcomes, row by row *)
+Theorem C18_history_content_independent : forall ev1 ev2 rows,
+  env_headers ev1 = env_headers ev2 -> forall st, scan_all ev1 rows st = scan_all ev2 rows st.
+Proof. exact scan_all_content_independent. Qed.
+Print Assumptions C18_history_content_independent.
+
+(* a history that is about something: `a` (ID, n:int=3), an unreadable `c`, `b` with the same
+   column names without annotations (ID, n), a filter of `a` registered as `z`, a load of `z` *)
+Example C18_history_nonvacuous :
+  outcomes ex_hist_rows (scan_all ex_hist_env ex_hist_rows init_state)
+  = [ Ok (OInferred [97]%N ex_int3, [[97]%N]); Err CRows; Ok (OInferred [98]%N ex_str, [[98]%N]);
+      Ok (OInferred [97]%N ex_int3, [[97]%N]); Ok (OInferred [97]%N ex_int3, [[97]%N]) ].
+Proof. exact ex_hist_outcomes. Qed.
+Print Assumptions C18_history_nonvacuous.
